@@ -1,4 +1,4 @@
-"""Per-property configuration of the ./check driver.
+"""Per-property configuration of the ./check driver (one file per property in lib/props/).
 
 Each unit is one test function of one harness package, run as its own process
 (and as several seed-sharded processes in the thorough tier).
@@ -6,27 +6,15 @@ Each unit is one test function of one harness package, run as its own process
   quick / thorough   number of rapid checks for that tier
   shards             number of seed shards in the thorough tier
 """
+import glob
+import importlib.util
+import os
 
 DEFAULT_TIMEOUT = {"quick": 600, "thorough": 3 * 3600}
 
 PROPS = {}
-
-PROPS["C07"] = {
-    "level": "exploration",
-    "rule": ("sequences of request actions {NoOp, ModifyHeaders, ModifyRequest, GenerateRequest, EarlyResponse} "
-             "/ response actions {NoOp, ModifyResponse, RetryRequest} of length 1-6 (rapid) and all kind sequences "
-             "up to length 3 (request) / 4 (response) with conflicting fixed header maps (exhaustive units), folded "
-             "exactly as getSPOEReqActions/getSPOERespActions/runOnRequest fold them and decoded from the SPOE "
-             "encoding; a case is non-trivial when >=2 non-no-op actions edit the same header name with different "
-             "values, or an early response is not in first position; distinct = distinct canonical JSON of the sequence"),
-    "assumptions": [
-        "header names are HTTP tokens and values visible ASCII without CR/LF (the line-based header encoding cannot carry them and no producer emits them)",
-        "the fold is re-stated in the harness from the exported methods (EnsureRequestIsUpdated, ReqPrioritize, ReqToSpoeActions); the e2e unit covers the unexported fold in routing",
-    ],
-    "units": [
-        {"pkg": "c07", "test": "TestRequestFoldRandom", "quick": 20000, "thorough": 200000, "shards": 8},
-        {"pkg": "c07", "test": "TestResponseFoldRandom", "quick": 20000, "thorough": 200000, "shards": 8},
-        {"pkg": "c07", "test": "TestRequestFoldExhaustive", "kind": "plain"},
-        {"pkg": "c07", "test": "TestResponseFoldExhaustive", "kind": "plain"},
-    ],
-}
+for _p in sorted(glob.glob(os.path.join(os.path.dirname(os.path.abspath(__file__)), "props", "c*.py"))):
+    _spec = importlib.util.spec_from_file_location("verif_prop_" + os.path.basename(_p)[:-3], _p)
+    _m = importlib.util.module_from_spec(_spec)
+    _spec.loader.exec_module(_m)
+    PROPS[_m.ID] = _m.PROP
